@@ -36,9 +36,11 @@ def run_armed(wd, inj, which, inp, schedule=None, recorder_cls=None):
                 CH.arm_on_treat(state, inj, which)
     if inj is not None:
         inj.install(wd)
+    rec = R(with_frac=False)
+    run_armed.last_recorder = rec
     try:
         try:
-            res = H.run_sim(wd, inp=inp, recorder=R(with_frac=False), schedule=schedule)
+            res = H.run_sim(wd, inp=inp, recorder=rec, schedule=schedule)
             return "ok", res
         except CH.Crash as c:
             return "crash", str(c)
@@ -63,6 +65,7 @@ def crash_case(case):
         sched = list(case.get("schedule") or [])
         inj = CH.Injector(crash_at=case["crash_at"], torn=case["torn"], buffered=case.get("buffered", False))
         tag, res = run_armed(wd, inj, case["which"], "infretis.toml", schedule=sched)
+        first_events = list(getattr(run_armed.last_recorder, "events", [])) if tag == "crash" else None
         out["info"]["effects"] = len(inj.log)
         out["info"]["crashed_effect"] = inj.log[-1] if (tag == "crash" and inj.log) else None
         out["info"]["step"] = getattr(inj, "step_info", None)
@@ -96,6 +99,24 @@ def crash_case(case):
                     cur = tomli.load(f)["current"]
                 out["info"].setdefault("cstep_after_crash", cur["cstep"])
                 locked_rec = sorted(repr(([int(e) - 1 for e in a], [int(p) for p in b])) for a, b in cur["locked"])
+                if rnd is rounds[0] and first_events is not None:
+                    # what the record must list: the jobs that were in flight when it was written, i.e. right after
+                    # the previous completed step (old record) or right after this one (new record)
+                    flying, snaps = [], []
+                    for kind, view, _ in first_events:
+                        if kind == "prep":
+                            flying.append(([int(e) for e in view["ens"]], [int(p) for p in view["paths"]]))
+                        elif kind == "treat":
+                            key = ([int(e) for e in view["ens"]], [int(p) for p in view["pn_old"]])
+                            if key in flying:
+                                flying.remove(key)
+                            snaps.append(sorted(map(repr, flying)))
+                    treated = [int(e) for e in (out["info"].get("step") or {}).get("ens", [])]
+                    after_this = sorted(repr(j) for j in flying if j[0] != treated)
+                    allowed = [after_this] + ([snaps[-1]] if snaps else [])
+                    if locked_rec not in allowed:
+                        out["problems"].append(("C08", f"after a crash at {out['info']['crashed_effect']} restart.toml records the in-flight jobs {locked_rec}, "
+                                                       f"but the jobs in flight when it can have been written were {allowed}"))
             # ---- restart
             preps = []
 
